@@ -23,6 +23,11 @@ CHECKS = {
    technique="TLA+ spec Collisions (resolve loop with index fix-ups, all list orders and resolver answers) checked by TLC; CollisionGeom lattice oracle for detection; hook traces of real searches validated against Trace_Collisions",
    text="TLC checks the resolve loop of reb_collision_search (pending list, removal sorted / swap-with-last / deferred in a tree, index fix-ups) for every overlap graph with <=2-3 edges on <=4-5 particles, every orientation set the direct / line / tree searches can produce, every permutation of the list and every resolver answer 0..3, plus the built-in merge policy: pending entries keep naming the identities they were found with, no collision between survivors is dropped, the array holds exactly the survivors (order kept when requested), nobody is resolved after removal, nobody merges twice per step. Detection: TLC classifies 20088 two-sphere integer configurations in periodic boxes (cubic with ghost ring in x,y; non-cubic root-box layouts with ghost ring in x,y,z) as Required / Boundary for the point and the line criterion; every configuration (quick: every 7th of the cubic family + all non-cubic) is run through direct, tree, line and linetree searches: Required => reported => Required or Boundary. Binding of the loop: 400 (quick) / 4000 (thorough) real reb_collision_search calls on clusters (chains, triangles, stars, squares, nested index pairs, disjoint pairs, bystanders) x 4 search modes x keep_sorted x random shuffle seeds with Python resolvers answering randomly, the built-in merge resolver on a 1/8 lattice (exact mass, momentum, mass-moment totals) and the hard-sphere resolver (momentum/energy 1e-11, last pair separating) are recorded through hooks (list after shuffle, each resolver call, list and particle identities after each fix-up) and validated by TLC against Trace_Collisions with all invariants.",
    note="Touching spheres and zero approach speed are don't-care; keep_sorted removal with a tree is refused by the library with an error and is not exercised with the merge resolver; merging across a periodic image is not exercised; hard-sphere energy/momentum is a sampled A5 clause."),
+ "C15": dict(
+   category="model_checking", design_ref="DESIGN.md 4/C15",
+   technique="TLA+ spec BoundaryTree (reb_boundary_check transcribed; tree contract TreeOK with cell geometry from paths) checked by TLC on integer lattices; real boundary-check / tree-update / step calls validated against Trace_BoundaryTree with the real tree walked through ctypes",
+   text="TLC checks BoundaryTree on integer lattices (particles on odd ticks, velocities multiples of 4 ticks up to 2.75 box lengths per step; root-box layouts 1x1x1, 2x1x1, 1x1x2; periodic, shear-periodic and open boundaries; with and without a tree; order-preserving removal when the energy offset is tracked): after every boundary check all particles are in the box, none is lost, coordinates differ from free flight by whole box lengths and the sheet's velocity jump equals S per radial wrap, the open boundary removes exactly the particles outside (incl. the remove-and-recheck loop and the flag-then-update path), no duplicates, and the minimal tree satisfies the tree contract. Binding: for 16 (quick) / 18 (thorough) configurations x 30 / 250 random lattice set-ups (1-12 particles, 2-6 steps, flagged user removals) every real call of reb_boundary_check, reb_simulation_update_tree + update_tree_gravity_data (one spec action each) and whole reb_simulation_step calls of a force-free LEAPFROG are recorded with the particle array and the real tree (leaves, inner counts and masses, back-pointers, cell geometry, walked read-only through ctypes); TLC validates each trace against Trace_BoundaryTree: the array is exactly the specified one (any order after a tree update), every live particle is in exactly one leaf, in the right root box, in the cell the octant rule leads to, which contains it; cell centre/width equal CellOf(path); counts and masses of inner cells equal the sums; library error messages and crashes are violations.",
+   note="Exactly coincident particles are excluded (the tree cannot hold them; the library reports an error and is then memory-unsafe -- observation recorded in DESIGN.md); the shearing sheet is exercised without a tree; cell centre of mass is an A5 clause (1e-9); tree-based gravity/collision 'see every particle once' follows from TreePartition together with C13's tree detection and C02's zero-opening-angle probe."),
  "C06": dict(
    category="model_checking", design_ref="DESIGN.md 4/C06",
    technique="TLA+ specs ArchiveDelta (delta encoder/loader) and Cadence (auto-snapshot protocol) checked by TLC; real archive histories validated against Trace_ArchiveDelta; TLC-simulated Cadence behaviours replayed into the library",
